@@ -214,6 +214,10 @@ class MathShim:
 
     @staticmethod
     def acos(x):
+        if isinstance(x, (int, float)) and not isinstance(x, bool):
+            # a literal reaches acos (the clamp of Vector.angle replaced the symbolic cosine): kept as a tagged leaf that
+            # no emitter renders, for the kernel that asks for it (k_angleClamp)
+            return K(('acos_literal', x))
         if not isinstance(x, K):
             raise TypeError('math.acos of a non-symbolic %r' % (x,))
         return K(('acos', x.e))
@@ -637,6 +641,28 @@ def k_angle(w):
     w.define_path('angle', asked)
 
 
+def k_angleClamp(w):
+    w.comment('`Vector.angle`, the two paths on which the clamp replaces the cosine: `cosine < 1.0` false -> acos(hi);')
+    w.comment('`cosine < 1.0` true and `... > -1.0` false -> acos(lo).  hi / lo are the literals that reach math.acos.')
+    a, b = w.V('a'), w.V('b')
+    r0, asked0 = w.walk([True, True], lambda: a.angle(b))
+    t0 = w.num(r0, 'angle')
+    if t0[0] != 'acos':
+        raise TypeError('Vector.angle is not an acos')
+    for nm, script in (('angleClampHi', [False]), ('angleClampLo', [True, False])):
+        r, asked = w.walk(script, lambda: a.angle(b))
+        t = w.num(r, 'angle')
+        if t[0] != 'acos_literal':
+            raise TypeError('%s: the argument of math.acos is not a literal on this path: %r' % (nm, t[0]))
+        v = t[1]
+        if v != int(v):
+            raise TypeError('%s: non-integral clamp bound %r' % (nm, v))
+        for c in asked:
+            same(t0[1], w.holes(c, 1)[0], 'cosine')
+        w.out.append('def impl_%s : Int := %d' % (nm, int(v)))
+        w.define_path(nm, asked)
+
+
 # ================================================================================================ kmember (rationals)
 def k_planeContains(w):
     w.comment('`Plane.__contains__(Point)`: `abs(other.pv() * self.n - self.p.pv() * self.n) < get_eps()`')
@@ -953,7 +979,7 @@ FILES = {
              [('orthogonal', k_orthogonal), ('vectorEq', k_vectorEq), ('pointEq', k_pointEq)]),
     'kvecr': (True, 'Vector.length, normalized, parallel (with its shortcuts), angle cosine',
               [('length', k_length), ('normalized', k_normalized), ('parallel', k_parallel),
-               ('parallelShortcuts', k_parallelShortcuts), ('angle', k_angle)]),
+               ('parallelShortcuts', k_parallelShortcuts), ('angle', k_angle), ('angleClamp', k_angleClamp)]),
     'kmember': (False, 'Plane.__contains__(Point / Line), HalfLine.__contains__(Point)',
                 [('planeContains', k_planeContains), ('planeContainsLine', k_planeContainsLine),
                  ('halfLineContains', k_halfLineContains), ('halfLineCtor', k_halfLineCtor)]),
